@@ -22,7 +22,7 @@
                  callbacks_g cb(CbRead) POLLIN wake_add apply_effects res(Ok) bind spec_run
      C09_Proofs: reachEC         C09_ProofsLoop: loop_channels others_quiet pend_inv idle_blocks_iff_E
                  wakeup_drained_E effects_current run_functors_ok ep_step_reach *)
-From Coq Require Import List Bool Arith NArith ZArith Lia.
+From Coq Require Import List Bool Arith NArith ZArith Lia Permutation FinFun.
 Import ListNotations.
 From Muduo Require Gen_C06 C06_Model C06_Proofs C06_Hist C06_Live C09_Model C09_Proofs C09_ProofsPoll C09_ProofsLoop.
 
@@ -151,6 +151,60 @@ Proof.
     cbn [P.bind]; try discriminate. intros [= -> -> -> <-]. auto.
 Qed.
 
+Lemma callbacks_internal runs act :
+  (forall c r, In (c, r) act -> r = P.POLLIN /\ runs c = true) ->
+  P.callbacks_g runs act = map (fun cr => (fst cr, P.CbRead)) act.
+Proof.
+  induction act as [|[c r] t IH]; intros H; [reflexivity|].
+  unfold P.callbacks_g in *. cbn [flat_map map fst snd].
+  destruct (H c r (or_introl eq_refl)) as [-> Hr]. rewrite Hr, PP.dispatch_pollin. cbn [map app].
+  f_equal. apply IH. intros c' r' Hin. apply H. now right.
+Qed.
+
+Lemma nodup_app_l {A} (a b : list A) : NoDup (a ++ b) -> NoDup a.
+Proof.
+  induction a as [|x r IH]; intros H; [constructor|]. cbn [app] in H. inversion H as [|? ? Hn Hr]; subst.
+  constructor; [intros Hx; apply Hn; apply in_or_app; now left|exact (IH Hr)].
+Qed.
+
+Lemma poll_nodup st sp ready choice st' act : PQ.reachEC st sp ->
+  P.ep_step_current st (P.Poll ready choice) = P.Ok (st', act) -> NoDup (map fst act).
+Proof.
+  intros HR E. destruct (PQ.reachEC_refines st sp HR (P.Poll ready choice)) as [A _].
+  destruct (A I) as (st2 & act2 & E2 & _ & _ & _ & ND & (rest & HP) & _).
+  rewrite E in E2. injection E2 as <- <-.
+  apply (Permutation_map fst) in HP. rewrite map_app in HP.
+  eapply Permutation_NoDup in ND; [|exact HP]. exact (nodup_app_l _ _ ND).
+Qed.
+
+Lemma loop_iter_poll S step h runs st ready choice st1 act log :
+  P.loop_iter S step h runs st ready choice = P.Ok (st1, act, log) ->
+  exists st0, step st (P.Poll ready choice) = P.Ok (st0, act).
+Proof.
+  unfold P.loop_iter. destruct (step st (P.Poll ready choice)) as [[st0 act0]| |]; cbn [P.bind fst snd]; try discriminate.
+  destruct (P.dispatch_batch S step h runs (map fst act0) st0 act0) as [[a b]| |]; cbn [P.bind fst snd]; try discriminate.
+  intros [= _ <- _]. eauto.
+Qed.
+
+(* a list of callbacks without repetition in which only x queues anything *)
+Lemma flat_map_absent {A B} (f : A -> list B) x log :
+  (forall y, In y log -> y <> x -> f y = []) -> ~ In x log -> flat_map f log = [].
+Proof.
+  induction log as [|a r IH]; intros H Hn; [reflexivity|]. cbn [flat_map].
+  rewrite (H a (or_introl eq_refl)) by (intros ->; apply Hn; now left). cbn [app].
+  apply IH; [intros y Hy; apply H; now right|intros Hx; apply Hn; now right].
+Qed.
+
+Lemma flat_map_single {A B} (f : A -> list B) x log : NoDup log ->
+  (forall y, In y log -> y <> x -> f y = []) -> In x log -> flat_map f log = f x.
+Proof.
+  induction 1 as [|a r Ha ND IH]; intros H Hin; [contradiction|]. cbn [flat_map].
+  destruct Hin as [->|Hin].
+  - rewrite (flat_map_absent f x r); [apply app_nil_r| |exact Ha]. intros y Hy. apply H. now right.
+  - rewrite (H a (or_introl eq_refl)) by (intros ->; contradiction). cbn [app].
+    apply IH; [intros y Hy; apply H; now right|exact Hin].
+Qed.
+
 (* PROGRESS.  The loop's own channels registered, every other channel quiet, and the poll does not
    block (the wake-up counter is non-zero or the timerfd's armed instant has passed).  Then the
    iteration succeeds and makes progress:
@@ -163,7 +217,7 @@ Qed.
      the earliest one, or the arming was stale (armed earlier than the earliest deadline) and the
      timerfd is re-armed for exactly max(earliest, now + floor) > now;
    - if the timerfd was not due the timer queue is untouched. *)
-Theorem combined_progress h hq fb runs user qw wc tc wfd tfd st sp w rd p tq choice script :
+Theorem combined_core h hq fb runs user qw wc tc wfd tfd st sp w rd p tq choice script :
   PQ.reachEC st sp -> PP.loop_channels sp wc tc wfd tfd ->
   PP.others_quiet sp wc tc (env_of w rd tq) ->
   runs wc = true -> runs tc = true -> (forall k, h wc k = []) -> (forall k, h tc k = []) ->
@@ -189,7 +243,8 @@ Theorem combined_progress h hq fb runs user qw wc tc wfd tfd st sp w rd p tq cho
             exists o t, T.hget a (T.heap tq) = Some o /\ In (T.ERun (T.o_seq o) d (T.clk tq) t) ev) \/
          ((T.clk tq < d)%Z /\ (x < d)%Z /\ TH.rlog ev = [] /\ T.timers tq' = T.timers tq /\
             T.clk tq' = T.clk tq /\ T.armed tq' = Some (Z.max d (T.clk tq + floor_val)))) /\
-    (~ due tq -> tq' = tq /\ ev = []).
+    (~ due tq -> tq' = tq /\ ev = []) /\
+    NoDup log /\ (forall ck, In ck log -> ck = (wc, P.CbRead) \/ ck = (tc, P.CbRead)).
 Proof.
   intros HR HL HQ Hrw Hrt Hhw Hht (c & ops & evs & Hrun) Hfun Hnb.
   set (e := env_of w rd tq) in *.
@@ -199,6 +254,13 @@ Proof.
   apply loop_iter_env_inv in Hit as [Hit He1].
   assert (Hint : forall ck, In ck log -> ck = (wc, P.CbRead) \/ ck = (tc, P.CbRead)).
   { intros ck Hin. apply Hlog in Hin as [[-> _]|[-> _]]; auto. }
+  assert (Hnd_log : NoDup log).
+  { destruct (loop_iter_poll _ _ _ _ _ _ _ _ _ _ Hit) as (st0 & Ep).
+    pose proof (poll_nodup st sp _ choice st0 act HR Ep) as ND.
+    unfold log. rewrite callbacks_internal.
+    - rewrite <- (map_map fst (fun c => (c, P.CbRead))). apply Injective_map_NoDup; [|exact ND].
+      intros a b [= ->]. reflexivity.
+    - intros c0 r0 Hin. apply Hact in Hin as [(-> & _ & ->)|(-> & _ & ->)]; auto. }
   set (ran := p ++ flat_map (fun ck => hq (fst ck) (snd ck)) log).
   destruct (PP.run_functors_ok P.ep P.ep_step_current PQ.reachEC PP.ep_step_reach fb ran st1 sp HR1 (Hfun log Hint))
     as (st2 & Hrf & HR2).
@@ -240,15 +302,125 @@ Proof.
       destruct Hdue as (x' & Hx' & Hle). rewrite Harm in Hx'. injection Hx' as <-.
       destruct (TH.progress c ops tq evs script tq' ev d a r x Hrun Htm Harm Hle Hfire) as [_ Hpr].
       exact Hpr.
-    + intros Hnd. contradiction.
+    + split; [intros Hnd; contradiction|split; [exact Hnd_log|exact Hint]].
   - assert (Hnd : ~ due tq).
     { intros Hd. apply Ht_in, timer_fired_in in Hd. congruence. }
     exists st2; eexists; exists (P.functors_queued fb ran), tq, act, log, ran, [].
     split; [reflexivity|]. split; [exact HR2|]. split; [exact Hne|]. split; [exact Hw_in|]. split; [exact Ht_in|].
     split; [reflexivity|]. split; [reflexivity|]. split; [apply Hkw'|]. split.
     + intros Hd. contradiction.
-    + intros _. auto.
+    + split; [intros _; auto|split; [exact Hnd_log|exact Hint]].
 Qed.
+
+Theorem combined_progress h hq fb runs user qw wc tc wfd tfd st sp w rd p tq choice script :
+  PQ.reachEC st sp -> PP.loop_channels sp wc tc wfd tfd ->
+  PP.others_quiet sp wc tc (env_of w rd tq) ->
+  runs wc = true -> runs tc = true -> (forall k, h wc k = []) -> (forall k, h tc k = []) ->
+  tq_reach tq ->
+  (forall log, (forall ck, In ck log -> ck = (wc, P.CbRead) \/ ck = (tc, P.CbRead)) ->
+     P.functors_ok fb sp (p ++ flat_map (fun ck => hq (fst ck) (snd ck)) log)) ->
+  (0 < w)%N \/ due tq ->
+  exists st' e' p' tq' act log ran ev,
+    combined_iter h hq fb runs user qw wc tc wfd tfd st w rd p tq choice script
+      = Some (st', e', p', tq', (act, log, ran, ev)) /\
+    PQ.reachEC st' (P.spec_run sp (P.functors_ops fb ran)) /\
+    log <> [] /\
+    (In (wc, P.CbRead) log <-> (0 < w)%N) /\ (In (tc, P.CbRead) log <-> due tq) /\
+    ran = p ++ flat_map (fun ck => hq (fst ck) (snd ck)) log /\
+    p' = P.functors_queued fb ran /\
+    P.k_wake e' = ((if qw true false true
+                    then N.of_nat (length (flat_map (fun ck => hq (fst ck) (snd ck)) log)) else 0)
+                   + (if qw true true true then N.of_nat (length p') else 0))%N /\
+    (due tq ->
+       T.fire tq script = T.Ok (tq', ev) /\
+       forall d a r x, T.timers tq = (d, a) :: r -> T.armed tq = Some x ->
+         ((d <= T.clk tq)%Z /\
+            exists o t, T.hget a (T.heap tq) = Some o /\ In (T.ERun (T.o_seq o) d (T.clk tq) t) ev) \/
+         ((T.clk tq < d)%Z /\ (x < d)%Z /\ TH.rlog ev = [] /\ T.timers tq' = T.timers tq /\
+            T.clk tq' = T.clk tq /\ T.armed tq' = Some (Z.max d (T.clk tq + floor_val)))) /\
+    (~ due tq -> tq' = tq /\ ev = []).
+Proof.
+  intros HR HL HQ Hrw Hrt Hhw Hht Htq Hfun Hnb.
+  destruct (combined_core h hq fb runs user qw wc tc wfd tfd st sp w rd p tq choice script
+              HR HL HQ Hrw Hrt Hhw Hht Htq Hfun Hnb)
+    as (st' & e' & p' & tq' & act & log & ran & ev & H1 & H2 & H3 & H4 & H5 & H6 & H7 & H8 & H9 & H10 & _).
+  exists st', e', p', tq', act, log, ran, ev. repeat (split; [assumption|]). assumption.
+Qed.
+
+(* THE TWO VIEWS OF pendingFunctors_ CONNECTED.  C09 names functors by ids (p, hq, fb); C06's timer
+   queue carries the same queue as [T.pending tq] (timer functors PAdd / PCancel and user functors
+   PUser) and the timer callbacks of an expiry as [script].  [fun_of] says which C06 functor a C09
+   id stands for.  Hypotheses that tie the two descriptions of ONE iteration together:
+     Hcoh : the queue at poll time is the same queue       T.pending tq = map fun_of p
+     Hscr : if the timerfd is due, what the callback scripts of this expiry queue (C06) is what C09
+            lists for the timer channel's read callback   pending after fire = pending ++ map fun_of (hq tc CbRead)
+     Hwq  : EventLoop::handleRead queues nothing           hq wc CbRead = []
+   Then the batch C09's doPendingFunctors runs is exactly C06's queue after the expiry - the
+   functors queued before the poll followed by those the timer callbacks queued (none if the timerfd
+   was not due) - and with an empty queue and a timerfd that is not due the iteration does nothing
+   but consume the wake-up (the stale wake-up case). *)
+Theorem combined_progress_connected h hq fb runs user qw wc tc wfd tfd st sp w rd p tq choice script
+    (fun_of : nat -> T.pfun) :
+  PQ.reachEC st sp -> PP.loop_channels sp wc tc wfd tfd ->
+  PP.others_quiet sp wc tc (env_of w rd tq) ->
+  runs wc = true -> runs tc = true -> (forall k, h wc k = []) -> (forall k, h tc k = []) ->
+  tq_reach tq ->
+  (forall log, (forall ck, In ck log -> ck = (wc, P.CbRead) \/ ck = (tc, P.CbRead)) ->
+     P.functors_ok fb sp (p ++ flat_map (fun ck => hq (fst ck) (snd ck)) log)) ->
+  (0 < w)%N \/ due tq ->
+  hq wc P.CbRead = [] ->
+  T.pending tq = map fun_of p ->
+  (due tq -> forall tq' ev, T.fire tq script = T.Ok (tq', ev) ->
+     T.pending tq' = T.pending tq ++ map fun_of (hq tc P.CbRead)) ->
+  exists st' e' p' tq' act log ran ev,
+    combined_iter h hq fb runs user qw wc tc wfd tfd st w rd p tq choice script
+      = Some (st', e', p', tq', (act, log, ran, ev)) /\
+    PQ.reachEC st' (P.spec_run sp (P.functors_ops fb ran)) /\
+    ran = p ++ (if dueb tq then hq tc P.CbRead else []) /\
+    T.pending tq' = map fun_of ran /\
+    p' = P.functors_queued fb ran /\
+    P.k_wake e' = ((if qw true false true
+                    then N.of_nat (length (if dueb tq then hq tc P.CbRead else [])) else 0)
+                   + (if qw true true true then N.of_nat (length p') else 0))%N /\
+    (p = [] -> ~ due tq ->
+       log = [(wc, P.CbRead)] /\ ran = [] /\ p' = [] /\ P.k_wake e' = 0%N /\ tq' = tq /\ ev = []).
+Proof.
+  intros HR HL HQ Hrw Hrt Hhw Hht Htq Hfun Hnb Hwq Hcoh Hscr.
+  destruct (combined_core h hq fb runs user qw wc tc wfd tfd st sp w rd p tq choice script
+              HR HL HQ Hrw Hrt Hhw Hht Htq Hfun Hnb)
+    as (st' & e' & p' & tq' & act & log & ran & ev & H1 & HRe & Hne & Hw_in & Ht_in & Hran & Hp' & Hkw & Hdue & Hnd & ND & Hint).
+  assert (Hq : flat_map (fun ck => hq (fst ck) (snd ck)) log = (if dueb tq then hq tc P.CbRead else [])).
+  { assert (Hoth : forall y, In y log -> y <> (tc, P.CbRead) -> hq (fst y) (snd y) = []).
+    { intros y Hy Hne'. destruct (Hint y Hy) as [->| ->]; [exact Hwq|contradiction]. }
+    destruct (dueb tq) eqn:Ed.
+    - apply (flat_map_single (fun ck => hq (fst ck) (snd ck)) (tc, P.CbRead) log ND Hoth).
+      apply Ht_in, dueb_due. exact Ed.
+    - apply (flat_map_absent (fun ck => hq (fst ck) (snd ck)) (tc, P.CbRead) log Hoth).
+      intros Hin. apply Ht_in, dueb_due in Hin. congruence. }
+  rewrite Hq in Hran, Hkw.
+  exists st', e', p', tq', act, log, ran, ev. split; [exact H1|]. split; [exact HRe|]. split; [exact Hran|]. split.
+  - destruct (dueb tq) eqn:Ed.
+    + destruct (Hdue (proj1 (dueb_due tq) Ed)) as [Hf _]. rewrite (Hscr (proj1 (dueb_due tq) Ed) _ _ Hf), Hcoh, Hran, map_app. reflexivity.
+    + destruct (Hnd (proj1 (dueb_not_due tq) Ed)) as [-> _]. rewrite Hcoh, Hran, app_nil_r. reflexivity.
+  - split; [exact Hp'|]. split; [exact Hkw|].
+    intros Hp0 Hnd'. apply dueb_not_due in Hnd' as Ed. rewrite Ed in Hran, Hkw. subst p. cbn [app] in Hran. subst ran.
+    assert (Hw : (0 < w)%N) by (destruct Hnb as [H|H]; [exact H|apply dueb_not_due in Ed; contradiction]).
+    assert (Hlog : log = [(wc, P.CbRead)]).
+    { destruct log as [|a r]; [contradiction|].
+      assert (Ha : a = (wc, P.CbRead)).
+      { destruct (Hint a (or_introl eq_refl)) as [->| ->]; [reflexivity|].
+        exfalso. apply dueb_not_due in Ed. apply Ed, Ht_in. now left. }
+      subst a. destruct r as [|b r]; [reflexivity|]. exfalso.
+      assert (Hb : b = (wc, P.CbRead)).
+      { destruct (Hint b (or_intror (or_introl eq_refl))) as [->| ->]; [reflexivity|].
+        exfalso. apply dueb_not_due in Ed. apply Ed, Ht_in. right; now left. }
+      subst b. inversion ND as [|? ? Hni _]. apply Hni. now left. }
+    unfold P.functors_queued in Hp'. cbn [flat_map] in Hp'. subst p'. cbn [length] in Hkw.
+    destruct (Hnd (proj1 (dueb_not_due tq) Ed)) as [-> ->].
+    repeat split; try reflexivity; try assumption.
+    rewrite Hkw. destruct (qw true false true), (qw true true true); reflexivity.
+Qed.
+
 
 (* what C09 assumes of the timer callback's effect on the environment (k_texp := 0) is what C06's
    handleRead does first: readTimerfd consumes the expiration *)
